@@ -105,6 +105,7 @@ def run(rep, work, tier, seed, only=None):
         else:
             dfm.append(rec)
     rep.extra['undeformed_instances_too_costly_for_exhaustive_search_this_tier'] = skipped
+    cc.report_cross_class(rep, outdir, ('d',))
     certified = set()
 
     def body_u(rec, uid):
